@@ -754,6 +754,22 @@ def index(I, ctx, fr, v, idx, node):
                 I.raise_exc(ctx, 'IndexError', 'index out of range', node)
             ctx.assume(z3.IsMember(nfirst(v.z), nset(v.z)))
             return VStr(nfirst(v.z))
+        if z3.is_int_value(iz) and 0 < iz.as_long() <= 4:
+            # names are pairwise distinct (parameter names): len == cardinality
+            k = iz.as_long()
+            card = Z.func('card<%s>' % nset(v.z).sort(), nset(v.z).sort(), Z.Int)
+            n = card(nset(v.z))
+            ctx.assume(n >= 0)
+            ctx.assume((n == 0) == (nset(v.z) == Z.empty_set(Z.Str)))
+            if not ctx.branch(n > k):
+                I.raise_exc(ctx, 'IndexError', 'index out of range', node)
+            from .values import nnth
+            ctx.assume(z3.IsMember(nnth(v.z, k), nset(v.z)))
+            ctx.assume(z3.IsMember(nfirst(v.z), nset(v.z)))
+            ctx.assume(nnth(v.z, k) != nfirst(v.z))
+            for j in range(1, k):
+                ctx.assume(nnth(v.z, k) != nnth(v.z, j))
+            return VStr(nnth(v.z, k))
         raise Unsupported('index %s into a collection of names' % iz, node)
     if not isinstance(idx, (VInt, VBool)):
         I.raise_exc(ctx, 'TypeError', 'indices must be integers', node)
@@ -872,6 +888,23 @@ def slice(I, ctx, v, lo, hi, node):
     if isinstance(v, VNames):
         n = Z.fresh('names_slice', NamesSort)
         ctx.assume(z3.IsSubset(nset(n), nset(v.z)))
+        lo_ = None if lo is None or isinstance(lo, VNone) else Z.simp(TInt.to_z(lo))
+        hi_ = None if hi is None or isinstance(hi, VNone) else Z.simp(TInt.to_z(hi))
+        if (lo_ is None or (z3.is_int_value(lo_) and lo_.as_long() == 0)) and hi_ is not None \
+                and z3.is_int_value(hi_) and 0 < hi_.as_long() <= 4:
+            # a prefix of k names: same leading names, min(k, len) of them
+            from .values import nnth
+            k = hi_.as_long()
+            srt = nset(v.z).sort()
+            card = Z.func('card<%s>' % srt, srt, Z.Int)
+            cv_, cn = card(nset(v.z)), card(nset(n))
+            ctx.assume(cv_ >= 0)
+            ctx.assume((cv_ == 0) == (nset(v.z) == Z.empty_set(Z.Str)))
+            ctx.assume(cn == z3.If(cv_ < k, cv_, z3.IntVal(k)))
+            ctx.assume((cn == 0) == (nset(n) == Z.empty_set(Z.Str)))
+            ctx.assume(nfirst(n) == nfirst(v.z))
+            for j in range(1, k):
+                ctx.assume(nnth(n, j) == nnth(v.z, j))
         return VNames(n)
     if isinstance(v, VObj):
         return I.engine.opaque_slice(ctx, v, lo, hi, node)
